@@ -19,6 +19,9 @@ def run(repo, rep):
     rep.clause("C10-d", "the receptive-field formula is the same where it is duplicated")
     rep.clause("C10-e", "stripe heights handed up a cascade stay even whenever any operator of that cascade resamples nearest-neighbour: the decision scans every scheduler op, filtered only by cascade identity and resampling mode")
     rep.undecided("that input box and pads equal the receptive field for all shapes; rolling-buffer sufficiency; every stripe height the scheduler proposes")
+    from .shared import duplicate_branch_lint
+
+    duplicate_branch_lint(repo, rep, "C10-a", ['high_level_command_stream', 'high_level_command_stream_generator', 'cascade_builder'])
     rep.assume("stripe steps are positive and the depth-slice list is ascending")
     from .shared import mirror_families, module_axis_lint
 
@@ -225,3 +228,30 @@ def run(repo, rep):
     rep.check(len(hs) == 1 and norm(hs[0].value) == "stripe.height + (stripe.height % 2 if force_even_stripe_heights else upscaling_remainder)", "C10-e", SITE_E,
               "forced-even height = stripe.height rounded up to even", norm(hs[0].value) if hs else "")
     rep.floor("C10-e", 3)
+
+    # ---------------------------------------------------------------- g: which operators may be striped in a cascade, rolling buffer storage
+    from .shared import require_conjuncts
+
+    rep.clause("C10-g", "an operator is striped inside a cascade only under the reviewed exclusions (block types without stripe geometry, slice reads, transposed convolution, tile padding ...); rolling-buffer storage keeps the 16-channel rounding of the tensor's storage shape")
+    cb = repo.mod("cascade_builder")
+    ic = cb.func("CascadeBuilder._is_cascadable")
+    ret = sorted((r_ for r_ in ast.walk(ic) if isinstance(r_, ast.Return)), key=lambda r_: r_.lineno)[-1]
+    require_conjuncts(rep, "C10-g", "ethosu/vela/cascade_builder.py:CascadeBuilder._is_cascadable", ret.value, [
+        "sched_op.op_type.npu_block_type not in non_cascadable_blocks",
+        "cost.stripe.height < sched_op.ofm.shape.height",
+        "sched_op.parent_op.read_offsets[0] is None",
+        "sched_op.parent_op.read_offsets[1] is None",
+        "self.elementwise_cascadable(sched_op)",
+        "not sched_op.parent_op.type == Op.Conv2DBackpropInputSwitchedBias",
+        "sched_op.parent_op.attrs.get('padding', None) != Padding.TILE",
+    ], "cascadable", "the operator gets row stripes although its IFM boxes / padding are only right for a single stripe")
+    tm = repo.mod("tensor")
+    ss = tm.func("Tensor.storage_shape_for_sub_purpose")
+    el = [n_ for n_ in ast.walk(ss) if isinstance(n_, ast.If) and "DoubleBuffer" in str(norm(n_.test)) and n_.orelse]
+    if len(el) != 1:
+        raise AnalysisError("storage_shape_for_sub_purpose: DoubleBuffer / rolling-buffer split not found")
+    base = [s_ for s_ in el[0].orelse if isinstance(s_, ast.Assign) and norm(s_.targets[0]) == "shp"]
+    rep.check(len(base) == 1 and norm(base[0].value) == "full_shape(4, self.storage_shape, 1)", "C10-g", "ethosu/vela/tensor.py:Tensor.storage_shape_for_sub_purpose",
+              "rolling-buffer storage starts from the tensor's storage shape (channels rounded to 16 for NHCWB16)", (str(norm(base[0].value)) if base else "") +
+              ": the row stride of a brick-format rolling buffer drops the channel rounding, so the last brick of a row overlaps the next row")
+    rep.floor("C10-g", 8)
